@@ -53,6 +53,62 @@ def bad_program(which):
         return f(pt.Int(1)), pt.Mode.Application
     if which == "none-typed-main":
         return pt.Seq(pt.Pop(pt.Int(1))), pt.Mode.Application
+    if which in ("fail-inside-while-body", "fail-inside-for-body"):
+        # the failure (an op of a later version) is met while the BODY of a loop is being lowered; compiled at version 6
+        v = pt.ScratchVar(pt.TealType.uint64)
+        body = pt.Seq(pt.Pop(pt.Base64Decode.std(pt.Bytes("YQ=="))), pt.If(v.load() == pt.Int(9)).Then(pt.Break()), v.store(v.load() + pt.Int(1)))
+        if which == "fail-inside-while-body":
+            loop = pt.Seq(v.store(pt.Int(0)), pt.While(v.load() < pt.Int(3)).Do(body))
+        else:
+            loop = pt.For(v.store(pt.Int(0)), v.load() < pt.Int(3), v.store(v.load() + pt.Int(1))).Do(pt.Seq(pt.Pop(pt.Base64Decode.std(pt.Bytes("YQ=="))), pt.Continue()))
+        return pt.Seq(loop, pt.Int(1)), pt.Mode.Application, 6
+    raise KeyError(which)
+
+
+def lib_program(which):
+    """hand-written programs over API areas the recipe grammar does not reach (used as targets and in histories)"""
+    if which == "break-outside-loop":
+        return pt.Seq(pt.If(pt.Txn.fee()).Then(pt.Break()), pt.Int(1)), pt.Mode.Application
+    if which == "continue-outside-loop":
+        return pt.Seq(pt.If(pt.Txn.fee()).Then(pt.Continue()), pt.Int(1)), pt.Mode.Application
+    if which == "break-in-subroutine-outside-loop":
+        @pt.Subroutine(pt.TealType.none)
+        def helper():
+            return pt.Seq(pt.Pop(pt.Int(1)), pt.Break())
+
+        v = pt.ScratchVar(pt.TealType.uint64)
+        return pt.Seq(v.store(pt.Int(0)), pt.While(v.load() < pt.Int(2)).Do(pt.Seq(helper(), v.store(v.load() + pt.Int(1)))), pt.Int(1)), pt.Mode.Application
+    if which in ("methodcall-pay-arg", "methodcall-two-txn-args"):
+        pay = {
+            pt.TxnField.type_enum: pt.TxnType.Payment,
+            pt.TxnField.receiver: pt.Txn.sender(),
+            pt.TxnField.amount: pt.Int(1000),
+            pt.TxnField.fee: pt.Int(0),
+            pt.TxnField.note: pt.Bytes("n"),
+            pt.TxnField.close_remainder_to: pt.Global.zero_address(),
+            pt.TxnField.rekey_to: pt.Global.zero_address(),
+        }
+        axfer = {
+            pt.TxnField.type_enum: pt.TxnType.AssetTransfer,
+            pt.TxnField.xfer_asset: pt.Int(5),
+            pt.TxnField.asset_amount: pt.Int(7),
+            pt.TxnField.asset_receiver: pt.Txn.sender(),
+            pt.TxnField.fee: pt.Int(0),
+            pt.TxnField.note: pt.Bytes("m"),
+        }
+        if which == "methodcall-pay-arg":
+            sig, args = "deposit(pay,uint64)void", [pay, pt.Itob(pt.Int(5))]
+        else:
+            sig, args = "swap(axfer,pay,account,uint8)uint64", [axfer, pay, pt.Txn.sender(), pt.Bytes(b"\x03")]
+        extra = {pt.TxnField.fee: pt.Int(0), pt.TxnField.note: pt.Bytes("outer"), pt.TxnField.on_completion: pt.OnComplete.NoOp}
+        return pt.Seq(pt.InnerTxnBuilder.ExecuteMethodCall(app_id=pt.Int(1234), method_signature=sig, args=args, extra_fields=extra), pt.Int(1)), pt.Mode.Application
+    if which == "execute-many-fields":
+        f = {
+            pt.TxnField.type_enum: pt.TxnType.AssetConfig, pt.TxnField.config_asset_total: pt.Int(10), pt.TxnField.config_asset_decimals: pt.Int(0),
+            pt.TxnField.config_asset_unit_name: pt.Bytes("u"), pt.TxnField.config_asset_name: pt.Bytes("name"), pt.TxnField.config_asset_url: pt.Bytes("url"),
+            pt.TxnField.config_asset_manager: pt.Txn.sender(), pt.TxnField.config_asset_reserve: pt.Txn.sender(), pt.TxnField.fee: pt.Int(0),
+        }
+        return pt.Seq(pt.InnerTxnBuilder.Execute(f), pt.Int(1)), pt.Mode.Application
     raise KeyError(which)
 
 
@@ -74,9 +130,12 @@ class Session:
             o = ("expr", b.build(), diff.mode_of(item["recipe"]), b)
         elif item["k"] == "router":
             o = ("router", RB.build_router(pt, item["rc"]))
-        else:
-            e, mode = bad_program(item["which"])
+        elif item["k"] == "lib":
+            e, mode = lib_program(item["which"])
             o = ("expr", e, mode)
+        else:
+            bp = bad_program(item["which"])
+            o = ("expr", bp[0], bp[1]) + ((None, bp[2]) if len(bp) > 2 else ())
         self.built[key] = o
         return o
 
@@ -89,7 +148,8 @@ class Session:
             if o[0] == "router":
                 a, c, _contract = o[1].compile_program(version=cfg["version"], assemble_constants=bool(cfg.get("assemble")), optimize=opt)
                 return a + "\n=====CLEAR=====\n" + c
-            return pt.compileTeal(o[1], o[2], version=cfg["version"], assembleConstants=bool(cfg.get("assemble")), optimize=opt)
+            version = o[4] if len(o) > 4 else cfg["version"]  # some failing builders pin their version
+            return pt.compileTeal(o[1], o[2], version=version, assembleConstants=bool(cfg.get("assemble")), optimize=opt)
         except PT_ERRORS as e:
             return "ERROR:%s" % type(e).__name__
         except RecursionError:
@@ -112,7 +172,7 @@ def main():
                 if o[0] == "expr":
                     o[1].type_of()
                     o[1].has_return()
-                    if len(o) > 3:
+                    if len(o) > 3 and o[3] is not None:
                         for w in o[3].routines:
                             w.type_of()
                             if hasattr(w, "has_return"):
